@@ -45,7 +45,7 @@ def expectedPins : List (String × String) := [
   ("findSegmentWithID", "12038067c445c321"),
   ("dateTimeOfPreloadHint", "9f77d16994154bd8"),
   ("clientStreamDownloader.run", "92baddbf46b49c37"),
-  ("clientStreamDownloader.runLowLatency", "df6f779e77fa0af7"),
+  ("clientStreamDownloader.runLowLatency", "f572bafa3e47a0d6"),
   ("clientStreamDownloader.runTraditional", "be465b4d2899b108"),
   ("clientStreamDownloader.downloadPlaylist", "e9312602cb82b694"),
   ("clientStreamDownloader.fillSegmentQueue", "32f4c87a59a596d8"),
@@ -62,6 +62,11 @@ def expectedPins : List (String × String) := [
 ]
 
 theorem c13_source_pins : pins = expectedPins := by decide
+
+/-- fix-F28 is in place: the Low-Latency loop ends the stream (nil marker, `<-ctx.Done()`) when the reloaded playlist
+    carries ENDLIST and no preload hint, instead of failing with "preload hint disappeared" (regenerated flag; the
+    model's `runLowLatency` follows it, the safety theorems hold for either value). -/
+theorem c13_ll_end_of_stream : genFlags.llEndsOnEndlist = true := by decide
 
 /-- `clientStreamProcessorFMP4.run` is exactly the statement sequence the model's `fmp4Start` follows, with the
     guards that repair F9 (`guardZeroTimeScale`) and F8 (`filterSupported` … `assignSupported`) in place. -/
